@@ -223,12 +223,17 @@ struct EObj : std::conditional<Reloc, RelocTag, NoTag>::type {
       mv = o.mv;
       o.v = -1;
       o.mv = 1;
+    } else if (!mv) {
+      // like std::string / std::vector, the value does not survive a self move assignment
+      v = -1;
+      mv = 1;
     }
     return *this;
   }
   ~EObj() {
     check_();
     R.prim("dtor", id, this, 0, nullptr);
+    *const_cast<volatile int *>(&v) = -2;  // the value does not survive the object (volatile: not a dead store)
   }
   friend bool operator==(const EObj &a, const EObj &b) { return a.v == b.v; }
   friend bool operator!=(const EObj &a, const EObj &b) { return a.v != b.v; }
